@@ -23,7 +23,7 @@ RULE = ("per array: a twin run under the shim lists every read of a data file an
         "of thread order; a case counts only if the shim logged the injection. Oracle: failing exit status and a diagnostic; the "
         "stripe concerned is afterwards not recorded as all-synced-and-not-bad in the decoded content file; status -G shows it "
         "(unsynced or bad); fix -e + scrub -p bad (or the next sync) repair it and the C06 parity oracle holds there; every other "
-        "stripe ends in the same state as in the fault-free twin and passes the C06 oracle. Scrub additionally with one fault in every touched stripe (full plan; -p 1 -o 0). A fired fault is attributed to its plan entry by the rule index the shim logs. distinct = (array, command, target, "
+        "stripe ends in the same state as in the fault-free twin and passes the C06 oracle. Scrub additionally with one fault in every touched stripe (full plan; -p 1 -o 0). A fired fault is attributed to its plan entry by the rule index the shim logs. Faults also arrive as a short first read followed by EIO on the continuation read. distinct = (array, command, target, "
         "errno, io-cache).")
 
 
